@@ -129,6 +129,7 @@ class ArmWalker:
         self.guards = []                    # stack of textual guards (non-kind conditions)
         self.loop = []                      # stack of (direction, over)
         self.dead = False                   # the arm has ended on this path (break/return/throw)
+        self.array_inits = {}               # local raw array -> its InitListExpr
 
     # -- classification of container expressions ------------------------------------------------
     def cls_of(self, e, depth=0):
@@ -326,6 +327,8 @@ class ArmWalker:
         if init is None:
             return
         init = specialise_expr(init, self.kind, self.subject)
+        if init.kind == 'InitListExpr':
+            self.array_inits[v.name] = init
         c = self.cls_of(init)
         self.alias[v.name] = c
         self.expr(init, target=('local', v.name))
@@ -419,6 +422,23 @@ class ArmWalker:
                     self.events.append(('call-flatten', c))
                 else:
                     self.events.append(('pycall', self.cls_of(callee), [self.arg_desc(x) for x in c.kids[2:]], c))
+            elif nm in ('PyObject_Vectorcall', 'PyObject_CallFunctionObjArgs', 'PyObject_Call') and a and \
+                    'unflatten_func' in a[0].text(5):
+                # C-API spelling of unflatten_func(node_data, children)
+                def unptr(x):
+                    x = strip_casts(x)
+                    while x is not None and x.kind == 'CXXMemberCallExpr' and x.callee_name() in ('ptr', 'release'):
+                        x = strip_casts(x.call_base())
+                    return x
+                argv = []
+                if nm == 'PyObject_Vectorcall' and len(a) > 1:
+                    arr = member_path(strip_casts(a[1]))
+                    init = self.array_inits.get(arr)
+                    if init is not None:
+                        argv = [self.cls_of(unptr(k)) for k in init.kids if k is not None]
+                else:
+                    argv = [self.cls_of(unptr(x)) for x in a[1:]]
+                self.events.append(('call-unflatten', argv, c))
             elif nm == 'emplace_back' and c.kind == 'CXXMemberCallExpr':
                 if is_worklist_push(self.prog, self.func, c):
                     self.events.append(('visit', self.cls_of(a[0]) if a else None, None, c))
